@@ -10,6 +10,7 @@ CONSTANTS
   Rts = {"x1", "s2"}
   Lbs = {}
   HostSets = {}
+  Attrs = {"a1"}
   LocLists = {}
   Defects = {}
 SPECIFICATION Spec
